@@ -17,7 +17,7 @@ import numpy
 from .. import engine, fpx
 from ..translate import blocks
 
-THEOREMS = ["next_overflow_checks", "next_kindsS", "Lmax32_ge4", "next_up_total_f32", "is_power_of_two_total_f32", "is_power_of_two_total_f16", "is_power_of_two_total_f64", "next_up_total_f16", "next_up_total_f64", "next_down_total_f32", "generated_wf", "ties_next", "next_constant_value", "next_all_precisions", "neighbours", "next_up_generated", "is_power_of_two_all_precisions", "next_up_bit_exact_f32", "refinement_scope", "is_power_of_two_shape_f32", "is_power_of_two_bit_exact_f32",
+THEOREMS = ["next_overflow_checks", "next_kindsS", "Lmax32_ge4", "next_up_total_f32", "is_power_of_two_total_f32", "is_power_of_two_total_f16", "is_power_of_two_total_f64", "next_up_total_f16", "next_up_total_f64", "next_down_total_f32", "next_down_checks", "next_down_total_f16", "next_down_total_f64", "generated_wf", "ties_next", "next_constant_value", "next_all_precisions", "neighbours", "next_up_generated", "is_power_of_two_all_precisions", "next_up_bit_exact_f32", "refinement_scope", "is_power_of_two_shape_f32", "is_power_of_two_bit_exact_f32",
             "is_power_of_two_shape_f16", "is_power_of_two_bit_exact_f16", "is_power_of_two_shape_f64", "is_power_of_two_bit_exact_f64",
             "next_up_generated_f16", "next_up_generated_f64", "next_up_bit_exact_f16", "next_up_bit_exact_f64"]
 SEARCHED = ["is_power_of_two exact", "3Sum s+e+t = x+y+z and 1-ULP bound", "4Sum 1 ULP", "mul_add 2 ULP", "dot2 3 ULP",
@@ -428,7 +428,7 @@ def run(ctx):
                 "z near -x*y, powers of two and neighbours in every binade; for the fix_overflow FMA variants also products of either sign in the last binade below the overflow "
                 "threshold); non-trivial = all intermediate operations finite; distinct by operand bits")
     V, progs, errors = generate(ctx)
-    broken = ctx.lean_stage(["FAVerif.Props.C11", "FAVerif.Props.C11Total"], THEOREMS)
+    broken = ctx.lean_stage(["FAVerif.Props.C11", "FAVerif.Props.C11Total", "FAVerif.Props.C11Total2"], THEOREMS)
     n_per = ctx.scale(1000, 30000)
     engine.run_variants(ctx, V, progs, errors, FMTS, gen_inputs=gen_inputs, check_clause=check_clause, n_per=n_per, broken=broken,
                         lean_every=16, sig_of=sig_of)
